@@ -130,6 +130,33 @@ def conc_cases(shapes, rnd, count, *, caps=(0, 1, 2), max_items=3, prefix="c"):
     return out
 
 
+def merge_close_cases(reps=15):
+    """Directed sequential histories on MergeStreamReaders of k pipes with sources of different lengths: a short source that is not the
+    last one sends one item and closes; every other source sends one item; the reader receives all of them (the short source's EOF gets
+    consumed along the way -- by the runtime's random select in a fraction of the repetitions, hence `reps`), one more round, then the
+    merged reader is closed early: every remaining writer must be told on its next send (WriterTold / SourceClosedOnce in StreamsObs,
+    a linearization in StreamsLin).  Every operation is non-blocking in the model (capacity >= 2); what must come back is decided by TLC."""
+    out = []
+    for k in (2, 3):
+        for short in range(1, k):                                  # 1-based pipe id of the short source, never the last
+            for cap in (2, 3):
+                tree = [{"k": "pipe", "src": [], "cap": cap, "items": ([i * 10 + 1] if i == short else [i * 10 + 1, i * 10 + 2, i * 10 + 3]),
+                         "n": 0, "idx": 0, "skip": 0} for i in range(1, k + 1)]
+                tree.append({"k": "merge", "src": list(range(1, k + 1)), "cap": 0, "items": [], "n": 0, "idx": 0, "skip": 0})
+                leaf = k + 1
+                others = [i for i in range(1, k + 1) if i != short]
+                ops = [{"a": short, "op": "send"}, {"a": short, "op": "closeSend"}]
+                ops += [{"a": j, "op": "send"} for j in others]
+                ops += [{"a": leaf, "op": "recv"}] * k
+                ops += [{"a": others[-1], "op": "send"}, {"a": leaf, "op": "recv"}, {"a": leaf, "op": "close"}]
+                ops += [{"a": j, "op": "send"} for j in others]      # must be told: the harness stops a writer that was told
+                ops += [{"a": j, "op": "closeSend"} for j in others]
+                for r in range(reps):
+                    out.append({"id": "mc%d-%d-%d-%d" % (k, short, cap, r), "mode": "seq", "shape": "mergeclose", "tree": tree, "ops": ops,
+                                "seed": 0, "pclose": 0})
+    return out
+
+
 # ------------------------------------------------------------------------------------------------ real runs
 
 _RACE = re.compile(r"WARNING: DATA RACE\n(.*?)\n==================", re.S)
